@@ -319,7 +319,11 @@ class HSFZConnection:
         self._closed = True
         self._read_task.cancel()
         self.writer.close()
-        await self.writer.wait_closed()
+        try:
+            await self.writer.wait_closed()
+        except ConnectionError as e:
+            # The connection was already lost (e.g. reset by the peer); there is nothing left to close.
+            logger.debug(f"Exception while waiting for the writer to close: {e!r}")
 
 
 class HSFZConfig(BaseModel):
